@@ -19,6 +19,8 @@ Proof. unfold hrs_le. intros H1 H2. lia. Qed.
 (** two states with the same height, round and step *)
 Definition hrs_eq (s s' : nstate) : Prop :=
   height s = height s' /\ round s = round s' /\ rstep s = rstep s'.
+Lemma hrs_eq_trans a b c : hrs_eq a b -> hrs_eq b c -> hrs_eq a c.
+Proof. unfold hrs_eq. intros (A & B & C) (D & E & F). repeat split; congruence. Qed.
 Lemma hrs_eq_le s s' : hrs_eq s s' -> hrs_le s s'.
 Proof. unfold hrs_eq, hrs_le. intros (H1 & H2 & H3). rewrite H3. lia. Qed.
 Lemma hrs_le_eq_l a b c : hrs_eq a b -> hrs_le b c -> hrs_le a c.
@@ -160,8 +162,12 @@ Proof.
   unfold hrs_le; cbn. lia.
 Qed.
 
-Lemma decide_proposal_eq h r s : hrs_eq s (decide_proposal mkblock cfg me h r s).
-Proof. unfold decide_proposal. brk; repeat split. Qed.
+Lemma decide_proposal_eq m h r s : hrs_eq s (decide_proposal mkblock cfg m h r s).
+Proof.
+  unfold decide_proposal. destruct m; [|repeat split].
+  destruct (valid_blk s); [repeat split|].
+  destruct (_ || _); [|repeat split]. destruct (mkblock _ _); repeat split.
+Qed.
 
 Lemma enter_propose_mono h r s : hrs_le s (enter_propose valid proposer mkblock cfg me h r s).
 Proof.
@@ -263,9 +269,9 @@ Proof.
   destruct (get_rv (rounds s) (v_round v)) eqn:E.
   - specialize (Hgo s). rewrite E in Hgo. exact Hgo.
   - destruct (_ <? _)%nat; [|repeat split].
-    match goal with |- hrs_eq s (fst (match get_rv (rounds ?x) _ with _ => _ end)) => specialize (Hgo x) end.
-    destruct Hgo as (A & B & C). destruct (add_round_eq (v_round v) s) as (A' & B' & C').
-    cbn in A, B, C. repeat split; congruence.
+    match goal with |- hrs_eq s (fst (match get_rv (rounds ?x) _ with _ => _ end)) =>
+      eapply hrs_eq_trans; [|apply (Hgo x)] end.
+    destruct (add_round_eq (v_round v) s) as (A' & B' & C'). repeat split; cbn; assumption.
 Qed.
 
 Lemma unlock_eq s : hrs_eq s (unlock s).
